@@ -2036,3 +2036,10 @@ pub fn run(ctx: &Ctx) {
     );
     ctx.extra("excluded_huge_client_id", json!(cnt.excluded_cid.load(Ordering::Relaxed)));
 }
+
+/// Entry point for fuzz targets / raw replays: the "any bytes" oracle under byte-by-byte reads,
+/// one-piece reads and two fixed mixed schedules.
+pub fn fuzz_bytes(data: &[u8]) -> Result<(), String> {
+    let frags: Vec<(Vec<u32>, u32)> = vec![(vec![], 1), (vec![], 1 << 20), (vec![7, 0, 3, 1, 64], 13), (vec![1, 1, 2, 3, 5, 8, 13, 21], 4096)];
+    check_bytes(data, &frags, false).map(|_| ())
+}
